@@ -844,7 +844,9 @@ func c28Child(raw json.RawMessage) (Case, error) {
 				MaxSendMsgSize: config.MemorySize(15 << 20), MaxRecvMsgSize: config.MemorySize(15 << 20)}
 		}
 		cfg.GetSamplerTypeVal = &config.DeterministicSamplerConfig{SampleRate: 1}
-		n, err := crossStartNode(crossNodeOpts{Addr: "http://node-a:8081", PeerList: []string{"http://node-a:8081", "http://node-b:8081"}, Net: mn, Cfg: cfg,
+		// the generic 500 body does not say that a panic was caught; the router's error log does
+		rlog := &logger.MockLogger{}
+		n, err := crossStartNode(crossNodeOpts{Addr: "http://node-a:8081", PeerList: []string{"http://node-a:8081", "http://node-b:8081"}, Net: mn, Cfg: cfg, RouterLog: rlog,
 			Collector:  &crossRecCollector{Node: "a", mu: &mu, log: &col},
 			Upstream:   &crossRecTx{Node: "a#up", mu: &mu, log: &hops},
 			WrapPeerTx: func(transmitT) transmitT { return &crossRecTx{Node: "a#peer", mu: &mu, log: &hops} }})
@@ -877,6 +879,11 @@ func c28Child(raw json.RawMessage) (Case, error) {
 			}
 			res.Statuses = append(res.Statuses, w.Code)
 			if w.Code == 500 && strings.Contains(w.Body.String(), "caught panic") {
+				res.Caught++
+			}
+		}
+		for _, e := range rlog.Events {
+			if e != nil && fmt.Sprint(e.Fields["error.msg"]) == "caught panic" {
 				res.Caught++
 			}
 		}
